@@ -257,6 +257,33 @@ def _collect(out, ui, rids, r):
             out.append({"u": ui, "r": ri, "status": "crash", "crash": r.get("crash")})
 
 
+NOSTL_EITHER = "nostl-either-typed-view-lifetime"
+
+
+def nostl_either_class(unit):
+    """-DNMTOOLS_DISABLE_STL programs in which a view is either-typed (a reduction with a RUN-TIME bool keepdims): utl::either copies /
+    assigns its non-trivial alternative into unconstructed storage (root cause: C19-nontrivial-either-lifetime) -> free of a garbage pointer"""
+    if unit.get("cfg") != "nostl":
+        return False
+    return any(isinstance((s.get("a") or {}).get("keepdims"), bool) for s in unit["case"]["stages"])
+
+
+def drop_known_units(pid, units, stats):
+    """units inside the class of a finding that is listed as known for this property are not run (counted)"""
+    from .core import listed_ids
+    fid = "%s-%s" % (pid, NOSTL_EITHER)
+    if fid not in listed_ids(pid):
+        return units
+    keep = []
+    for u in units:
+        if nostl_either_class(u) and not u.get("_witness"):
+            k = "excluded_by_known_finding:" + fid
+            stats.rejected[k] = stats.rejected.get(k, 0) + len(u["renderings"])
+        else:
+            keep.append(u)
+    return keep
+
+
 def view_suite(tier, seed):
     """the shared suite of view-level units (C09, C10 E2 part, C11)"""
     import random
@@ -298,7 +325,7 @@ class ProgenProp(Prop):
     def extra_phases(self, ctx):
         tier, seed, stats, info = ctx["tier"], ctx["seed"], ctx["stats"], ctx["info"]
         t0 = time.time()
-        units = self.units(tier, seed)
+        units = drop_known_units(self.id, self.units(tier, seed), stats)
         results = run_units(units, self.what)
         info["progen_units"] = len(units)
         info["progen_s"] = round(time.time() - t0, 1)
